@@ -24,6 +24,10 @@ pub struct ScEval {
     /// SimpleGarnishData only: run on a working copy cloned from the store the program was built into
     #[serde(default)]
     pub working_copy: bool,
+    /// jump entries the host registered for itself before the program was built (all naming one stub
+    /// instruction): the builder's jump-table indices and instruction indices then run differently far ahead
+    #[serde(default)]
+    pub host_jumps: usize,
     pub basic: bool,
     pub src: String,
     pub input: Val,
@@ -41,6 +45,13 @@ struct Real {
 fn run_real<D: SimData>(sc: &ScEval, out: &mut Outcome) -> Option<Real> {
     let mut d = D::create(Host::new(sc.script.clone()), &Knobs::default()).ok()?;
     d.host_mut().recording = false;
+    if sc.host_jumps > 0 {
+        let stub = d.push_instruction(garnish_lang_traits::Instruction::EndExpression, None).ok()?;
+        for _ in 0..sc.host_jumps {
+            d.push_to_jump_table(stub).ok()?;
+        }
+        out.probe("host-registered-jump-entries-before-the-build");
+    }
     let built = match compile(&mut d, &sc.src) {
         BuildOutcome::Ok(b) => b,
         other => {
@@ -325,7 +336,8 @@ impl Campaign for C10 {
                 script.resolve.insert(symbol_value(name), Answer::Churn(vr.range(1, 25) as u32, Box::new(prev)));
             }
         }
-        ScEval { working_copy: !basic && vr.chance(1, 4), basic, src, input: Val::Unit, script, max_steps: 3000 }
+        let host_jumps = if vr.chance(1, 3) { vr.range(1, 16) } else { 0 };
+        ScEval { host_jumps, working_copy: !basic && vr.chance(1, 4), basic, src, input: Val::Unit, script, max_steps: 3000 }
     }
 
     fn execute(&self, sc: &ScEval) -> Outcome {
@@ -349,7 +361,20 @@ impl Campaign for C10 {
                     let mut script = HostScript::default();
                     script.resolve.insert(symbol_value("c"), Answer::Provide(rep.clone()));
                     script.resolve_default = Some(Answer::Unique);
-                    v.push(ScEval { working_copy: false, basic, src: con.to_string(), input: Val::Unit, script, max_steps: 200 });
+                    v.push(ScEval { host_jumps: 0, working_copy: false, basic, src: con.to_string(), input: Val::Unit, script, max_steps: 200 });
+                }
+            }
+            // workload A3: the same constructs (and two else-chains) built after the host registered 1..16 jump entries
+            // of its own, tested value true / false
+            for host_jumps in 1..=16usize {
+                for con in constructs.iter().copied().chain(["c ?> t |> d ?> u |> e", "d ?> t |> c ?> u |> e"]) {
+                    for truthy in [true, false] {
+                        let mut script = HostScript::default();
+                        script.resolve.insert(symbol_value("c"), if truthy { Answer::Provide(Val::Int(7)) } else { Answer::Decline });
+                        script.resolve.insert(symbol_value("d"), Answer::Decline);
+                        script.resolve_default = Some(Answer::Unique);
+                        v.push(ScEval { host_jumps, working_copy: false, basic, src: con.to_string(), input: Val::Unit, script, max_steps: 200 });
+                    }
                 }
             }
             // workload A2: the right operand of `&&` / `||` is an un-bracketed operator expression (the
@@ -382,7 +407,7 @@ impl Campaign for C10 {
                                 script.resolve.insert(symbol_value("a"), Answer::Provide(a.clone()));
                                 script.resolve.insert(symbol_value("b"), Answer::Provide(b.clone()));
                                 script.resolve_default = Some(Answer::Unique);
-                                v.push(ScEval { working_copy: false, basic, src: format!("c {} {}", logical, shape), input: Val::Unit, script, max_steps: 200 });
+                                v.push(ScEval { host_jumps: 0, working_copy: false, basic, src: format!("c {} {}", logical, shape), input: Val::Unit, script, max_steps: 200 });
                             }
                         }
                     }
@@ -393,7 +418,7 @@ impl Campaign for C10 {
                 let mut script = HostScript::default();
                 script.resolve.insert(symbol_value("c"), Answer::Decline);
                 script.resolve_default = Some(Answer::Unique);
-                v.push(ScEval { working_copy: false, basic, src: con.to_string(), input: Val::Unit, script, max_steps: 200 });
+                v.push(ScEval { host_jumps: 0, working_copy: false, basic, src: con.to_string(), input: Val::Unit, script, max_steps: 200 });
             }
         }
         v
@@ -523,7 +548,8 @@ impl Campaign for C17 {
         if basic && rng.chance(1, 8) {
             script.nth_override.insert(rng.below(6), Answer::Churn(rng.range(1, 30) as u32, Box::new(Answer::Unique)));
         }
-        ScEval { working_copy: !basic && rng.chance(1, 4), basic, src, input, script, max_steps: 3000 }
+        let host_jumps = if rng.chance(1, 3) { rng.range(1, 16) } else { 0 };
+        ScEval { host_jumps, working_copy: !basic && rng.chance(1, 4), basic, src, input, script, max_steps: 3000 }
     }
 
     fn execute(&self, sc: &ScEval) -> Outcome {
@@ -563,9 +589,9 @@ impl Campaign for C17 {
                         });
                         script.resolve.insert(symbol_value("x1"), Answer::Provide(Val::External(4)));
                         script.apply_default = Some(if mode == 0 { Answer::Decline } else { Answer::Unique });
-                        v.push(ScEval { working_copy: false, basic, src: p.to_string(), input: input.clone(), script: script.clone(), max_steps: 300 });
+                        v.push(ScEval { host_jumps: 0, working_copy: false, basic, src: p.to_string(), input: input.clone(), script: script.clone(), max_steps: 300 });
                         if !basic {
-                            v.push(ScEval { working_copy: true, basic, src: p.to_string(), input: input.clone(), script, max_steps: 300 });
+                            v.push(ScEval { host_jumps: 0, working_copy: true, basic, src: p.to_string(), input: input.clone(), script, max_steps: 300 });
                         }
                     }
                 }
